@@ -301,6 +301,16 @@ def run(ctx):
     ctx.assumptions += [
         "shapes are consistent (len(b) = rows of W, initial guess and Laplacian/Tikhonov matrix match the columns) and "
         "weights are non-negative, as the property states; inputs are finite doubles",
+        "input objects: every array argument (W, b, L, initial guess) is independently handed over as float64 (C, Fortran, "
+        "strided / negative strides / transposed), int32, int64, uint8, bool, float32, nested list or read-only array, scalars as "
+        "Python int / float, NumPy scalars or 0-d arrays; the model is fed the exact values of the objects passed.  Which forms an "
+        "entry point rejects, and with which exception, is the policy table coq/Model/C11_Forms.v (SART: only writable float64 "
+        "arrays of any layout for W, b, guess - Cython typed memoryviews; NNLS/LSQ: W must have .shape, a nested-list Tikhonov "
+        "matrix only with a 0-d alpha; SVD: b must have .reshape); the observed outcome is compared with it in Coq; accepted forms "
+        "go through the same ties as float64",
+        "single precision inside the implementation (not promoted to double by the code): scipy's pinv works in float32 for a "
+        "float32 / uint8 / bool W (invert_svd), NumPy forms alpha*L in float32 for a float32 Tikhonov matrix (NNLS/LSQ); for "
+        "these inputs the certificates are asked for at 2^-17 / the handed-over system at 2^-21",
         "SART: the measurement vector is not identically zero when at least one sweep is made (the documented convergence "
         "value is normalised by |b|^2; the implementation raises ZeroDivisionError there and the model says so - compared exactly)",
         "NNLS: max(b) > 0 (the documented normalisation by max(b_vector); for max(b) <= 0 the implementation raises "
@@ -352,8 +362,8 @@ def run(ctx):
                 corpus_cases.append(c)
 
     # ---- SART cases ------------------------------------------------------------------------------
-    n_run = 40 if quick else 200
-    n_trace = 100 if quick else 1000
+    n_run = 40 if quick else 400
+    n_trace = 100 if quick else 2500
     sart_cases = [c for c in corpus_cases if c["kind"] in ("sart", "csart")]
     for i in range(n_run):
         sart_cases.append(gen_sart_case(rng, rng.choice(["int", "int", "dyadic"]), False, i % 2 == 1))
@@ -441,7 +451,7 @@ def run(ctx):
         entries.append((e, case))
 
     # ---- least-squares cases -------------------------------------------------------------------
-    n_lsq = 64 if quick else 480
+    n_lsq = 64 if quick else 1200
     lsq_cases = [c for c in corpus_cases if c["kind"] in ("nnls", "lstsq", "svd")]
     for i in range(n_lsq):
         lsq_cases.append(gen_lsq_case(rng, rng.choice(["int", "dyadic", "float", "float"]), ["nnls", "lstsq", "nnls", "svd"][i % 4]))
@@ -659,7 +669,9 @@ def run(ctx):
                       "certificates": "eps = 2^-30 x rounding-error scale (max_j sum_i |C_ij| x max_i (|C||x| + |d|)_i for the gradient, "
                                       "|(|C||x| + |d|)|^2 for the objective); invert_svd: 2^-26 (explicit pseudo-inverse: eps x cond(W), "
                                       "generated cond(W) <= ~1e5)"},
-        "partial": ["NNLS / LSQ / SVD: the third-party solvers are not modelled; each output is certified (validation of outputs) "
+        "partial": ["float32 (for invert_svd also uint8 / bool) inputs are processed in single precision by the implementation: "
+                    "their outputs are certified at single precision only",
+                    "NNLS / LSQ / SVD: the third-party solvers are not modelled; each output is certified (validation of outputs) "
                     "and the Coq theorem turns the certificate into eps-optimality against every competitor",
                     "invert_svd: only the normal equations of |Wx-b|^2 are certified (not the minimum-norm choice)",
                     "floating point: the SART theorems are about exact rational arithmetic; the implementation is tied to the model "
